@@ -23,7 +23,7 @@ from .fam_fs import extract
 
 NAME = "det"
 
-DIMS = ["entropy", "rand", "set_order", "clock_pid", "buffers", "prehistory", "environ", "list_order"]
+DIMS = ["entropy", "rand", "set_order", "clock_pid", "buffers", "prehistory", "environ", "list_order", "schedule"]
 BUILTIN_RESERVED = ["router", "system", "permit", "interface", "domain-search", "esp-seal", "snmp", "trunk", "neighbor"]
 
 
@@ -127,8 +127,17 @@ def generate(seed, tier="quick", mode=None, child=False, **kw):
         o["as"] = [str(x) for x in r.sample(range(64512, 65535), r.randint(25, 60))]
         as_heavy = True
     ctx = GC.make_ctx(r, o)
-    paths, dirs, hidden = GC.gen_tree(r, r.randint(1, 4), hidden=False, dirs=r.random() < 0.5)
+    many = o["pwd"] and r.random() < 0.1
+    if many:
+        # many small files with a different secret each (work that a change might spread over worker threads)
+        secrets = GC.gen_secrets(r, 12, classes=["text", "num", "hex", "t7", "md5"], words=o["words"] or ())
+    paths, dirs, hidden = GC.gen_tree(r, (r.randint(8, 12) if many else r.randint(1, 4)), hidden=False, dirs=r.random() < 0.5)
     files = [{"path": p, "lines": GC.gen_lines(r, ctx, secrets, o, r.randint(1, 10))} for p in paths]
+    if many:
+        ids = sorted(secrets)
+        for i, f in enumerate(files):
+            ln = GC.secret_line(r, ctx, secrets, kinds=("keep",), ident=ids[i % len(ids)])
+            f["lines"] = ([ln] if ln else []) + f["lines"][:2]
     if as_heavy:
         fl = r.choice(files)
         nums = list(o["as"])
@@ -147,6 +156,8 @@ def generate(seed, tier="quick", mode=None, child=False, **kw):
     if nosalt:
         o["salt"] = None
     dims = [r.choice(DIMS)] if r.random() < 0.7 else r.sample(DIMS, r.randint(2, 4))
+    if many and "schedule" not in dims:
+        dims = ["schedule"] + dims[:1]
     odd_salt = o["salt"] is not None and (o["salt"] == "" or o["salt"][0] not in G.J9_ALPHA)
     if odd_salt and o["pwd"]:
         # the failing path of $9$ secrets under such a salt must be just as repeatable as the normal one
@@ -187,6 +198,8 @@ def _knobs(plan, dims):
         k["clock"], k["pid"], k["host"] = k2["clock"], k2["pid"], k2.get("host")
     if "environ" in dims:
         k["environ"] = k2["environ"]
+    if "schedule" in dims:
+        k["sched_key"] = k2["sched_key"]
     if "buffers" in dims:
         for x in ("bufsize", "chunk", "max_read", "max_write"):
             k[x] = k2[x]
@@ -326,6 +339,8 @@ def check(plan):
         exercised = exercised or bool(plan["pre"])
     if "list_order" in dims:
         exercised = exercised or any(plan["opts"].get(k) and len(plan["opts"][k]) > 1 for k in ("words", "as", "reserved", "pp", "pa"))
+    if "schedule" in dims:
+        probes["sched_points"] = h1.get("sched_points", 0) + (h2.get("sched_points", 0) if isinstance(h2, dict) else 0)
     if any(d in dims for d in ("rand", "clock_pid", "buffers", "environ")) or child is not None:
         exercised = True
     return _res(plan, V, probes, steps, [W.public_hist(h1), {k: v for k, v in h2.items() if k in (
